@@ -1,12 +1,12 @@
 CONSTANTS
   W = 1
   Limit = 1
-  L = 2
-  Uds = {2}
+  L = 1
+  Uds = {}
   MaxConns = 2
-  MaxFaults = 0
-  MaxCmds = 3
-  MaxErrs = 1
+  MaxFaults = 1
+  MaxCmds = 2
+  MaxErrs = 0
   MaxBare = 0
   WakeAt = 2
   IgnoreUnknownIdx = TRUE
@@ -23,6 +23,7 @@ CONSTANTS
   RejoinPausedNoAvail = FALSE
 SPECIFICATION Spec
 VIEW View
-INVARIANTS TypeOK C01_Conservation C01_ServedOnce C01_NoSilentDrop C02_Bound C02_NoForcedSend C03_NoLostWake C04_RoundRobin C04_BitsTrueWhenCalm C05_ListenerLive C05_UdsReachable C05_ConnErrNoDelay C05_TimerHasTimeout C08_NoPanic C08_NoSpin C08_NoGhostBit C08_NoDupHandles C08_FaultReportedOnce
+INVARIANTS TypeOK C01_Conservation C01_ServedOnce C01_NoSilentDrop C02_Bound C02_NoForcedSend C03_NoLostWake C04_RoundRobin C04_BitsTrueWhenCalm C05_ListenerLive C05_UdsReachable C05_ConnErrNoDelay C05_TimerHasTimeout C08_NoPanic C08_NoSpin C08_NoGhostBit C08_NoDupHandles C08_FaultReportedOnce LogInit
 PROPERTIES Steps
+ACTION_CONSTRAINT LogEdge
 CHECK_DEADLOCK FALSE
